@@ -236,10 +236,16 @@ Print Assumptions C15_rounding_ties_to_even.
 Theorem C15_decode_bits_denominator_positive : forall bits neg num den, decode_bits bits = Some (neg, num, den) -> 0 < den.
 Proof. exact decode_bits_den. Qed.
 Print Assumptions C15_decode_bits_denominator_positive.
-(* "text outside the directive is copied" is FALSE of the code: finding fmtnum-literal-text-mangled *)
-Theorem C15_fmtnum_copies_literal_text_refuted : fmtnum (VInt 17) (B "17") (B "old:%d") = FOut (B "od:17").
-Proof. exact fmtnum_literal_text_mangled. Qed.
-Print Assumptions C15_fmtnum_copies_literal_text_refuted.
+(* the witnesses of the repaired findings (literal text mangled, trailing text, %x of a negative int) *)
+Theorem C15_fmtnum_repaired_witnesses :
+  fmtnum (VInt 17) (B "17") (B "old:%d") = FOut (B "old:17")
+  /\ fmtnum (VInt 17) (B "17") (B "%5d|") = FOut (B "   17|")
+  /\ fmtnum (VInt 0) (B "0") (B "le %16lf") = FOut (B "le         0.000000")
+  /\ fmtnum (VInt (-1)) (B "-1") (B "%x") = FOut (B "ffffffffffffffff") /\ hexfmt (VInt (-1)) (B "-1") = B "0xffffffffffffffff"
+  /\ fmtnum (VInt (-5)) (B "-5") (B "%08llx") = FOut (B "fffffffffffffffb")
+  /\ fmtnum (VInt (-1)) (B "-1") (B "%-10x|") = FOut (B "ffffffffffffffff|").
+Proof. exact fmtnum_repaired_witnesses. Qed.
+Print Assumptions C15_fmtnum_repaired_witnesses.
 
 Example C15_nonvacuous_2 :
   b64_encode (B "Ma") = B "TWE=" /\ b64_decode (B "TW
@@ -254,7 +260,7 @@ Fu") = Some (B "Man") /\ b64_decode (B "TWE") = None
   /\ fmtnum (VFloat 4612811918334230528%Z) (B "2.5") (B "%.0f") = FOut (B "2")
   /\ fmtnum (VFloat 4600877379321698714%Z) (B "0.4") (B "%.20f") = FOut (B "0.40000000000000002220")
   /\ fmtnum (VInt 9007199254740993) (B "9007199254740993") (B "%.1le") = FOut (B "9.0e+15")
-  /\ fmtnum (VInt 17) (B "17") (B "%5d|") = FOut (B "%!d(string=   17)|") /\ fmtnum (VInt (-1)) (B "-1") (B "%x") = FOut (B "-1").
+  /\ fmtnum (VInt 17) (B "17") (B "%5d|") = FOut (B "   17|") /\ fmtnum (VInt (-1)) (B "-1") (B "%x") = FOut (B "ffffffffffffffff").
 Proof. vm_compute. repeat split; try reflexivity; eexists; repeat split; reflexivity. Qed.
 
 (* ================================================================== wrapper verbs (ModelVerbs.v) *)
@@ -275,3 +281,218 @@ Example C15_nonvacuous_verbs :
   /\ run_verb VUtf8ToLatin1 [(B "k", bs [195; 169]%N); (B "e", bs [226; 130; 172]%N)] = [(B "k", bs [233]%N); (B "e", B "(error)")]
   /\ nth_error [(B "a", B "x"); (B "b", B "y")] 1 = Some (B "b", B "y").
 Proof. vm_compute. repeat split; reflexivity. Qed.
+
+(* ================================================================== round 2: fmtnum after the repairs of newFormatter *)
+(* the text before and after the directive is copied verbatim: ALL integers, ALL texts free of '%' (the finding
+   fmtnum-literal-text-mangled / fmtnum-trailing-text, now the full law) *)
+Theorem C15_fmtnum_copies_literal_text :
+  forall z txt pr po, no_pct pr = true -> no_pct po = true ->
+  fmtnum (VInt z) txt (pr ++ B "%d" ++ po) = FOut (pr ++ sdec z ++ po) /\ parse_signed_dec (sdec z) = Some z.
+Proof. intros z txt pr po Hp Ho. split; [exact (fmtnum_d_literal z txt pr po Hp Ho)|exact (parse_signed_dec_text z)]. Qed.
+Print Assumptions C15_fmtnum_copies_literal_text.
+Theorem C15_fmtnum_x_copies_literal_text :
+  forall z txt pr po, no_pct pr = true -> no_pct po = true -> (-18446744073709551616 <= z)%Z ->
+  fmtnum (VInt z) txt (pr ++ B "%x" ++ po) = FOut (pr ++ digits_text 16 false (Z.to_N (as_unsigned z)) ++ po).
+Proof. exact fmtnum_x_literal. Qed.
+Print Assumptions C15_fmtnum_x_copies_literal_text.
+(* %x of ANY int64 is its 64-bit two's complement: hexfmt without the 0x, reading back as z mod 2^64 *)
+Theorem C15_fmtnum_x_twos_complement :
+  forall z txt, (-9223372036854775808 <= z <= 9223372036854775807)%Z ->
+  exists t, fmtnum (VInt z) txt (B "%x") = FOut t /\ hexfmt (VInt z) txt = "0"%char :: "x"%char :: t
+            /\ parse_base 16 t 0 = Some (Z.to_N (z mod 18446744073709551616)).
+Proof. exact fmtnum_x_hexfmt. Qed.
+Print Assumptions C15_fmtnum_x_twos_complement.
+Example C15_nonvacuous_fmt_round2 :
+  no_pct (B "old: le lld ") = true /\ no_pct (B " units|") = true /\ no_pct (B "100%") = false
+  /\ fmtnum (VInt (-42)) (B "-42") (B "old: le lld %d units|") = FOut (B "old: le lld -42 units|")
+  /\ sdec (-42) = B "-42" /\ as_unsigned (-1) = 18446744073709551615%Z /\ as_unsigned 5 = 5%Z
+  /\ fmtnum (VInt (-9223372036854775808)) (B "") (B "<%x>") = FOut (B "<8000000000000000>")
+  /\ split_directive (B "a%-08.3ll_fz") = Some (B "a", B "-08.3", true, "f"%char, B "z")
+  /\ go_format (B "x%05lldy") = (KInt, B "x%05dy") /\ go_format (B "old:%s") = (KString, B "old:%s") /\ go_format (B "%5") = (KString, B "%5").
+Proof. vm_compute. repeat split; reflexivity. Qed.
+(* coercion rule: an integer verb (d x X o b) applied to a float formats int(float) = truncation toward zero (inside
+   int64); a float verb (f e g E G) applied to an int formats float64(int), exact below 2^53 *)
+Theorem C15_fmtnum_int_verb_truncates_float :
+  forall bits neg num den z txt f,
+  fst (go_format f) = KInt -> decode_bits bits = Some (neg, num, den) -> int_of_float (neg, num, den) = Some z ->
+  fmtnum (VFloat bits) txt f = fmtnum (VInt z) txt f
+  /\ z = (if neg then - Z.of_N (num / den) else Z.of_N (num / den))%Z.
+Proof.
+  intros bits neg num den z txt f K D I. split; [exact (fmtnum_int_verb_of_float bits _ z txt f K D I)|].
+  exact (proj1 (int_of_float_trunc neg num den z I)).
+Qed.
+Print Assumptions C15_fmtnum_int_verb_truncates_float.
+Theorem C15_fmtnum_float_verb_converts_int :
+  forall z txt f, fst (go_format f) = KFloat ->
+  fmtnum (VInt z) txt f =
+    (if negb (Nat.eqb (count_pct f) 1) then FError else
+     match parse_format (snd (go_format f)) with Some sp => of_opt (sprintf_float sp (float_of_int z)) | None => FUnmodelled end)
+  /\ ((Z.abs z < 9007199254740992)%Z -> float_of_int z = ((z <? 0)%Z, Z.abs_N z, 1%N)).
+Proof. intros z txt f K. split; [exact (fmtnum_float_verb_of_int z txt f K)|exact (float_of_int_exact z)]. Qed.
+Print Assumptions C15_fmtnum_float_verb_converts_int.
+(* fmtifnum = fmtnum except that an error gives the first argument back: ALL values and formats *)
+Theorem C15_fmtifnum_is_fmtnum_or_identity :
+  forall v txt f, fmtifnum v txt f <> FError
+  /\ (fmtnum v txt f = FError -> fmtifnum v txt f = FOut txt) /\ (fmtnum v txt f <> FError -> fmtifnum v txt f = fmtnum v txt f)
+  /\ (count_pct f <> 1%nat -> fmtnum v txt f = FError /\ fmtifnum v txt f = FOut txt).
+Proof.
+  intros v txt f. split; [exact (fmtifnum_never_error v txt f)|]. split; [exact (proj1 (fmtifnum_spec v txt f))|].
+  split; [exact (proj2 (fmtifnum_spec v txt f))|exact (fmtnum_rejects v txt f)].
+Qed.
+Print Assumptions C15_fmtifnum_is_fmtnum_or_identity.
+Example C15_nonvacuous_fmt_coercion :
+  fst (go_format (B "%5d|")) = KInt /\ fst (go_format (B "%.2lf")) = KFloat
+  /\ decode_bits 13836465430165716992%Z = Some (true, 5910974510923776, 2251799813685248)%N     (* -2.625 *)
+  /\ int_of_float (true, 5910974510923776, 2251799813685248)%N = Some (-2)%Z
+  /\ fmtnum (VFloat 13836465430165716992%Z) (B "-2.625") (B "%5d|") = FOut (B "   -2|")
+  /\ fmtnum (VInt 3) (B "3") (B "%.2lf") = FOut (B "3.00") /\ float_of_int 9007199254740993 = (false, 9007199254740992, 1)%N
+  /\ fmtnum (VInt 17) (B "17") (B "%d%d") = FError /\ fmtifnum (VInt 17) (B "17") (B "%d%d") = FOut (B "17")
+  /\ fmtifnum (VInt 17) (B "17") (B "%04d") = FOut (B "0017").
+Proof. vm_compute. repeat split; reflexivity. Qed.
+(* leftpad/rightpad: length in CHARACTERS; whole copies of the pad only: the result never exceeds n and falls short of n by
+   less than one pad; nothing is added when not even one copy fits; truncate leaves short strings alone *)
+Theorem C15_pad_length_law :
+  forall s n p, valid_utf8 p = true ->
+  strlen (leftpad s n p) = (Z.of_nat (pad_count s n p) * strlen p + strlen s)%Z
+  /\ (valid_utf8 s = true -> strlen (rightpad s n p) = (strlen s + Z.of_nat (pad_count s n p) * strlen p)%Z)
+  /\ ((0 < strlen p)%Z -> (strlen s + strlen p <= n)%Z -> (n - strlen p < strlen (leftpad s n p) <= n)%Z)
+  /\ ((n < strlen s + strlen p)%Z -> leftpad s n p = s /\ rightpad s n p = s).
+Proof.
+  intros s n p V. split; [exact (leftpad_length s n p V)|]. split; [intros Vs; exact (rightpad_length s n p Vs V)|].
+  split; [intros P H; rewrite (leftpad_length s n p V); exact (pad_count_bounds s n p P H)|exact (pad_count_zero s n p)].
+Qed.
+Print Assumptions C15_pad_length_law.
+Theorem C15_truncate_short_is_identity : forall s n, (strlen s <= n)%Z -> truncate s n = s.
+Proof. exact truncate_short. Qed.
+Print Assumptions C15_truncate_short_is_identity.
+Example C15_nonvacuous_pad :
+  valid_utf8 (bs [195; 169; 45]%N) = true /\ strlen (bs [195; 169; 45]%N) = 2%Z
+  /\ leftpad (B "ab") 7 (bs [195; 169; 45]%N) = bs [195; 169; 45; 195; 169; 45; 97; 98]%N
+  /\ strlen (leftpad (B "ab") 7 (bs [195; 169; 45]%N)) = 6%Z /\ pad_count (B "ab") 7 (bs [195; 169; 45]%N) = 2%nat
+  /\ leftpad (B "ab") 3 (bs [195; 169; 45]%N) = B "ab" /\ truncate (B "ab") 5 = B "ab".
+Proof. vm_compute. repeat split; reflexivity. Qed.
+
+(* ================================================================== regex: matcher, sub/gsub/regextract, =~ registers
+   (RegexModel.v, RegexProofs.v, RegexProofs2.v).  D ci r i w rest is the denotational semantics of the regex subset
+   (literals, ., classes, ? * +, |, groups, ^ $, case folding): r matches the word w at character position i of the
+   text, followed by rest.  The matcher m is the backtracking (leftmost-first) matcher the harness runs. *)
+From Miller Require Import C15.RegexModel C15.RegexProofs C15.RegexProofs2.
+Open Scope nat_scope.
+
+(* soundness, for every continuation: whatever the matcher accepts is a word of the language, and the continuation
+   was run right after it *)
+Theorem C15_regex_matcher_sound :
+  forall ci r i s c k res, m ci r i s c k = Some res ->
+  exists w s' c', s = w ++ s' /\ D ci r i w s' /\ k (i + List.length w) s' c' = Some res.
+Proof. exact m_sound. Qed.
+Print Assumptions C15_regex_matcher_sound.
+
+(* completeness: if some word of the language is a prefix of the text and the continuation accepts after it, the
+   matcher succeeds (stars over bodies that can match the empty word included) *)
+Theorem C15_regex_matcher_complete :
+  forall ci r i w rest, D ci r i w rest -> forall c k, (forall c', exists res, k (i + List.length w) rest c' = Some res) ->
+  exists res, m ci r i (w ++ rest) c k = Some res.
+Proof. exact m_complete. Qed.
+Print Assumptions C15_regex_matcher_complete.
+
+(* the unanchored search finds a match iff one exists anywhere, and what it returns is a match of the language whose
+   start is leftmost: no word of the language starts at an earlier position *)
+Theorem C15_regex_search_finds_iff :
+  forall ci r s i, (exists pre w post, s = pre ++ w ++ post /\ D ci r (i + List.length pre) w post) <-> search ci r i s <> None.
+Proof. exact search_finds_iff. Qed.
+Print Assumptions C15_regex_search_finds_iff.
+Theorem C15_regex_search_leftmost :
+  forall ci r s i a b c, search ci r i s = Some (a, b, c) ->
+  exists pre w post, s = pre ++ w ++ post /\ a = i + List.length pre /\ b = a + List.length w /\ D ci r a w post
+                     /\ no_match_before ci r i s (List.length pre).
+Proof. exact search_some. Qed.
+Print Assumptions C15_regex_search_leftmost.
+(* PARTIAL: among the matches that start at the leftmost position the matcher returns the FIRST in backtracking order
+   (Perl / Go leftmost-first: left alternative before right, greedy iteration); that order is the definition of m and is
+   tied to Go's regexp by correspondence only -- there is no independent ordered semantics it is proved against. *)
+
+(* the text the matcher walks over is a partition of the subject's bytes (invalid UTF-8 included) *)
+Theorem C15_regex_text_is_partition_of_bytes : forall s, flat (chunks s) = s.
+Proof. exact flat_chunks. Qed.
+Print Assumptions C15_regex_text_is_partition_of_bytes.
+
+(* gsub / sub with a regex that matches nowhere are the identity, regextract is absent *)
+Theorem C15_gsub_sub_identity_without_match :
+  forall ci r s rep, no_match ci r (chunks s) -> gsub ci r s rep = s /\ sub ci r s rep = s /\ regextract ci r s = None.
+Proof. exact gsub_sub_identity_without_match. Qed.
+Print Assumptions C15_gsub_sub_identity_without_match.
+
+(* sub replaces exactly the leftmost match, byte-exact around it; regextract returns that match *)
+Theorem C15_sub_replaces_leftmost_match :
+  forall ci r s rep a b c, search ci r 0 (chunks s) = Some (a, b, c) ->
+  exists pre w post, chunks s = pre ++ w ++ post /\ a = List.length pre /\ b = a + List.length w /\ D ci r a w post
+    /\ no_match_before ci r 0 (chunks s) (List.length pre)
+    /\ s = flat pre ++ flat w ++ flat post
+    /\ sub ci r s rep = flat pre ++ interp rep (captures10 (chunks s) a b c) ++ flat post
+    /\ regextract ci r s = Some (flat w).
+Proof. exact sub_replaces_leftmost_match. Qed.
+Print Assumptions C15_sub_replaces_leftmost_match.
+Theorem C15_sub_plain_replacement :
+  forall ci r s rep a b c, search ci r 0 (chunks s) = Some (a, b, c) -> has_capture_ref rep = false ->
+  exists pre w post, s = flat pre ++ flat w ++ flat post /\ D ci r (List.length pre) w post /\ sub ci r s rep = flat pre ++ rep ++ flat post.
+Proof. exact sub_plain_replacement. Qed.
+Print Assumptions C15_sub_plain_replacement.
+
+(* gsub on empty matches (Go's FindAll rule): once before every character and once at the end *)
+Theorem C15_gsub_empty_regex :
+  forall ci s rep, gsub ci Eps s rep = E0 rep ++ List.concat (map (fun x => snd x ++ E0 rep) (chunks s)).
+Proof. exact gsub_empty_regex. Qed.
+Print Assumptions C15_gsub_empty_regex.
+
+(* the "\0".."\9" registers: untouched by anything but =~ / !=~ (print, sub, gsub, calls of user-defined functions,
+   which get a fresh frame); a string literal is left alone while they are unset; after a failed match every \digit
+   interpolates as empty *)
+Theorem C15_registers_kept_until_next_match :
+  forall n body st, forallb (fun x => negb (sets_registers x)) body = true -> snd (run_block n body st) = st.
+Proof. exact registers_kept_until_next_match. Qed.
+Print Assumptions C15_registers_kept_until_next_match.
+Theorem C15_sub_replacement_ignores_registers :
+  forall n glob subj ci r rep st,
+  run_stmt n (SSub glob subj ci r rep) st = ([(if glob then gsub else sub) ci r (eval_lit subj st) (unbackslash rep)], st).
+Proof. exact sub_replacement_ignores_registers. Qed.
+Print Assumptions C15_sub_replacement_ignores_registers.
+Theorem C15_literal_untouched_while_unset : forall lit, eval_lit lit None = unbackslash lit.
+Proof. exact eval_lit_unset. Qed.
+Print Assumptions C15_literal_untouched_while_unset.
+Theorem C15_failed_match_clears_registers :
+  forall n neg subj ci r st, no_match ci r (chunks (eval_lit subj st)) ->
+  run_stmt n (SMatch neg subj ci r) st = ([if neg then TRUE_ else FALSE_], Some (repeat [] 10)).
+Proof. exact failed_match_clears. Qed.
+Print Assumptions C15_failed_match_clears_registers.
+Theorem C15_empty_registers_erase_references : forall rep, interp rep (repeat [] 10) = strip_refs rep.
+Proof. exact interp_empty_registers. Qed.
+Print Assumptions C15_empty_registers_erase_references.
+
+(* "..."i and "..." as CompileMillerRegex reads them, for every pattern text *)
+Theorem C15_regex_case_insensitive_suffix :
+  forall p, compile_miller (DQ :: p ++ [DQ; "i"%char]) = (true, p) /\ compile_miller (DQ :: p ++ [DQ]) = (false, p).
+Proof. exact (fun p => conj (compile_quoted_i p) (compile_quoted p)). Qed.
+Print Assumptions C15_regex_case_insensitive_suffix.
+
+Example C15_nonvacuous_regex :
+  let a := At (AChr 97%N) in let b := At (AChr 98%N) in
+  gsub false (Star (At (AChr 120%N))) (B "abc") (B "-") = B "-a-b-c-"
+  /\ gsub false (Grp 1%N (Plus a)) (B "aabab") (B "<\1>") = B "<aa>b<a>b"
+  /\ sub false (Cat (Grp 1%N a) (Grp 2%N b)) (B "xxabab") (B "<\2\1\0\3>") = B "xx<baab>ab"
+  /\ sub true (Alt (At (AChr 107%N)) b) (bs [226; 132; 170; 66]%N) (B "_") = bs [95; 66]%N
+  /\ search false (Cat a b) 0 (chunks (B "xab")) = Some (1, 3, [])
+  /\ D false (Cat a b) 1 (chunks (B "ab")) []
+  /\ no_match false (Cat a a) (chunks (B "a"))
+  /\ gsub false (Cat a a) (B "a") (B "X") = B "a"
+  /\ fst (run_block 3 [SPrint (B "\1:\2"); SMatch false (B "abc") false (Cat (Grp 1%N a) (Grp 2%N b)); SPrint (B "\1:\2\101");
+                       SFrame [SPrint (B "in\1")]; SSub false (B "ab") false (Grp 1%N b) (B "[\1]"); SMatch false (B "q") false a; SPrint (B "<\1>")] None)
+     = [B "\1:\2"; B "true"; B "a:bA"; B "in\1"; B "a[b]"; B "false"; B "<>"]
+  /\ compile_miller (B """a.*b""i") = (true, B "a.*b").
+Proof.
+  cbv zeta. repeat split; try (vm_compute; reflexivity).
+  - change (chunks (B "ab")) with ([(97%N, B "a")] ++ [(98%N, B "b")]).
+    apply (DCat false _ _ 1 [(97%N, B "a")] [(98%N, B "b")] []); constructor; reflexivity.
+  - intros pre w post Heq HD. inversion HD; subst.
+    match goal with H1 : D _ (At _) _ ?w1 _, H2 : D _ (At _) _ ?w2 _ |- _ => inversion H1; inversion H2; subst end.
+    vm_compute in Heq. destruct pre as [|p0 [|p1 pre]]; cbn in Heq; discriminate.
+Qed.
